@@ -21,7 +21,7 @@ RULE = ('ThreadSim: real threads released one at a time; yield points at '
         'Non-trivial = a Close frame was written while another call was in '
         'flight; distinct = distinct (base, switch sites) signatures')
 SHRINK_LISTS = [('schedule', 'points')]
-EXPECTED_PROBES = ['stalled_writes', 'close_vs_send', 'close_vs_close', 'close_vs_loop_echo',
+EXPECTED_PROBES = ['old_generator_finalised_while_closing', 'stalled_writes', 'close_vs_send', 'close_vs_close', 'close_vs_loop_echo',
                    'close_vs_auto_pong', 'close_vs_auto_ping',
                    'loser_got_websocket_error',
                    'lock_contended', 'split_writes']
@@ -109,17 +109,49 @@ def plan(tier):
                 ('sweep2_full', sum(_full2_size(b) for b in _full2_bases())),
                 ('base_random', len(BASES) * 6000),
                 ('stall', 40000),
+                ('held_generator', 6000),
                 ('sweep2', 60000),
                 ('random', 120000)]
     return [('sweep1', len(BASES) * SLOT1),
             ('sweep1b', len(BASES) * SLOT1),
             ('base_random', len(BASES) * 250),
             ('stall', 1500),
+            ('held_generator', 400),
             ('sweep2', 3000 if q else 150000),
             ('random', 2500 if q else 120000)]
 
 
+def _held_case(i, rng, tier):
+    """No second thread, but a second *finaliser*: the generator of an
+    earlier, abandoned connection of the same object is closed (as the
+    garbage collector of any thread may do) in the middle of the closing
+    handshake of the current one.  Scenario and oracle are C08's."""
+    from . import C08
+    for _ in range(200):
+        c = C08.make_case('seeded', rng.randrange(100000), rng, tier)
+        c.pop('close_write_fails', None)
+        c['prelude'] = 'abandoned_held'
+        c['release_at'] = rng.choice(['ready', 'text', 'binary', 'ping',
+                                      'poll', 'closing', 'closed'])
+        c['send_everywhere'] = True
+        return {'name': 'held_generator', 'held': c}
+
+
+def _execute_held(case):
+    from . import C08
+    r = C08.execute(case['held'])
+    r.violations = [('C12/held_generator/' + k.split('/', 1)[1], m)
+                    for k, m in r.violations
+                    if k.split('/')[-1] in ('two_closes', 'data_after_close',
+                                            'send_accepted_after_close')]
+    r.stats['probe:old_generator_finalised_while_closing'] += \
+        r.stats.get('probe:old_generator_released_mid_handshake', 0)
+    return r
+
+
 def make_case(family, i, rng, tier):
+    if family == 'held_generator':
+        return _held_case(i, rng, tier)
     if family in ('sweep1', 'sweep1b'):
         b = i // SLOT1
         n, nt = _info(b)
@@ -169,6 +201,7 @@ def make_case(family, i, rng, tier):
                          'us': rng.choice([900001, 2500001, 5500001,
                                            12000001, 40000001])}
         case['eof_after'] = 90000000
+        case['max_steps'] = 400000
         case['name'] = nm + '+stall'
         if rng.random() < 0.5:
             # let the stalled sender go first
@@ -242,6 +275,8 @@ def make_case(family, i, rng, tier):
 
 
 def execute(case):
+    if 'held' in case:
+        return _execute_held(case)
     res = Result()
     sc, tr, sched = T.run(case)
     w = tr.world
